@@ -507,10 +507,19 @@ class FuzzyTerm(ExpandingTerm):
     def _btexts(self, ixreader):
         # terms_within() yields decoded words; the other multi-term queries
         # (and MultiTerm.simplify/expanded_terms) work with term bytes
-        to_bytes = ixreader.schema[self.fieldname].to_bytes
-        for word in ixreader.terms_within(self.fieldname, self.text,
-                                          self.maxdist,
-                                          prefix=self.prefixlength):
+        fieldobj = ixreader.schema[self.fieldname]
+        to_bytes = fieldobj.to_bytes
+        terms_within = ixreader.terms_within
+        if fieldobj.spelling_fieldname(self.fieldname) != self.fieldname:
+            # A segment reader looks in the field's separate list of spelling
+            # words (the words as they were typed), which are not the terms of
+            # the field (their stems): go through the terms themselves
+            from whoosh.reading import IndexReader
+
+            def terms_within(*args, **kwargs):
+                return IndexReader.terms_within(ixreader, *args, **kwargs)
+        for word in terms_within(self.fieldname, self.text, self.maxdist,
+                                 prefix=self.prefixlength):
             yield to_bytes(word)
 
     def replace(self, fieldname, oldtext, newtext):
